@@ -106,8 +106,8 @@ def Carries (k : Nat) (s s' : State) (G G' : Ghost) (A A' : Nat → KSt) : Prop 
   ∀ (inv : Nat) (cur : Option Nat), inv ≤ s.now → Good G.cr A k inv s cur → Good G'.cr A' k inv s' cur
 
 /-- **every transition carries the justifications of the readers** -/
-theorem MemStep.carries {k : Nat} {s s' : State} {l : Local} {G G' : Ghost} {A : Nat → KSt} {x : KSt}
-    (m : MemStep s s' l G G') (H : HInv s G) (H' : HInv s' G')
+theorem MemStep.carries {k : Nat} {s s' : State} {v : Option (CellId × Nat)} {G G' : Ghost} {A : Nat → KSt} {x : KSt}
+    (m : MemStep s s' v G G') (H : HInv s G) (H' : HInv s' G')
     (hnow : s'.now = s.now + 1) (hA : A s.now = absOf s k) : Carries k s s' G G' A (nextA A s.now x) := by
   intro inv cur hinv hg
   have hold : ∀ τ, τ ≤ s.now → nextA A s.now x τ = A τ := fun τ h => nextA_old h
@@ -117,6 +117,7 @@ theorem MemStep.carries {k : Nat} {s s' : State} {l : Local} {G G' : Ghost} {A :
   | upd id act he _ =>
     obtain ⟨C', -, hs, -⟩ := he
     exact hg.step H H' hs hnow hold hA hinv
+  | clear id h act u hh hv => exact hg.cleared H act u hh hnow hold hA hinv
   | build h hp hv hc0 hh h0 hL hH hc =>
     exact hg.step H H' (build_effect H hp hc0 hh h0 hL hH hc).2.1 hnow hold hA hinv
   | storeNew lo hg' hp hh h0 hL hH hc =>
